@@ -1395,6 +1395,9 @@ func textAlign(context *layoutContext, line_ Box, availableWidth pr.Float, last 
 		alignLast := line.Style.GetTextAlignLast()
 		if alignLast != "auto" {
 			align = alignLast
+		} else if align == "justify" {
+			// text-align-last: auto aligns the last line as text-align-all does, except that justify becomes start
+			align = "start"
 		}
 	}
 	ws := line.Style.GetWhiteSpace()
